@@ -76,6 +76,10 @@ def run(db, chk) -> None:
     for cls in filters:
         if cls == "CompositeFilter":
             continue
+        if cls not in expected:
+            # the property speaks about the documented filters (its list of predicates); a further Filter subclass has no documented predicate to be held against
+            chk.note(f"C18: filter class {cls} is not one of the documented filters: not decided")
+            continue
         for symtab in (True, False):
             tag = f"{cls}[{'with' if symtab else 'without'} symbol table]"
             try:
